@@ -19,6 +19,8 @@ type FuncResult struct {
 	VC          *VC
 	OutOfSubset string // non-empty: reason; the function is not counted as proved
 	StubsUsed   []string
+	Abstracted  []string // calls over-approximated (pragma unknowncalls havoc)
+	AssumedObls map[string]int // pragma obligations contract: automatic obligations assumed, by kind
 	Inlined     []string
 	Callees     []string
 	Notes       []string
@@ -53,6 +55,11 @@ func VerifyFunc(ld *Loader, specs *Specs, fk string, safetyOnly bool) (res *Func
 	for pass := 1; pass <= 5; pass++ {
 		ex := NewExec(ld, specs, res.Key)
 		ex.safetyOnly = safetyOnly
+		if fc.Pragmas["obligations"] == "contract" {
+			// only contract-derived obligations are proved; panic-freedom of this function and the
+			// preconditions of its callees are ASSUMED (listed in the evidence with their counts)
+			ex.vc.assumeKinds = map[string]bool{"idx": true, "nil": true, "div": true, "arith": true, "pre": true, "nopanic": true, "fdiv": true, "assert": true}
+		}
 		if fc.Pragmas["floats"] == "real" {
 			ex.realFloats = true
 		}
@@ -78,6 +85,8 @@ func VerifyFunc(ld *Loader, specs *Specs, fk string, safetyOnly bool) (res *Func
 		if stable {
 			res.VC = ex.vc
 			res.StubsUsed = sortedKeys(ex.stubsUsed)
+			res.Abstracted = sortedKeys(ex.abstracted)
+			res.AssumedObls = ex.vc.assumedN
 			res.Inlined = sortedKeys(ex.inlined)
 			res.Callees = sortedKeys(ex.calleesUsed)
 			res.Notes = ex.notes
@@ -89,6 +98,33 @@ func VerifyFunc(ld *Loader, specs *Specs, fk string, safetyOnly bool) (res *Func
 			}
 			for _, o := range ex.vc.obls {
 				o.ModelOf = append(append([]string(nil), ex.modelSyms...), ex.frameSyms...)
+			}
+			// forbidden calls: a syntactic obligation over the function and all its closures
+			for i, fb := range fc.Forbid {
+				want := strings.TrimSpace(strings.TrimPrefix(fb.Text, "call"))
+				found := ""
+				var scan func(f *ssa.Function)
+				scan = func(f *ssa.Function) {
+					for _, b := range f.Blocks {
+						for _, in := range b.Instrs {
+							if ci, ok := in.(ssa.CallInstruction); ok {
+								if n := calleeName(ci.Common()); (n == want || strings.HasSuffix(n, "."+want) || strings.HasSuffix(n, ")."+want)) && found == "" {
+									found = ex.posString(in.Pos())
+								}
+							}
+						}
+					}
+					for _, af := range f.AnonFuncs {
+						scan(af)
+					}
+				}
+				scan(fn)
+				goal := TTrue
+				if found != "" {
+					goal = TFalse
+				}
+				o := ex.vc.Oblige("forbid", clauseName(fb, i)+":"+fb.Text, TTrue, goal, found)
+				o.ModelOf = nil
 			}
 			// anchors must have matched
 			for _, at := range fc.Ats {
